@@ -1179,6 +1179,21 @@ def r_search_loop(m, rep, R):
                     if r1[0] == 'mcall' and r1[1] in (('this',), ('deref', ('this',))) and r1[2] == 'update' and \
                             [canon(a) for a in r1[3]] == [canon(M(it_, 'start_of_span')), canon(SUB(M(it_, 'span_length'), LIT(1))), canon(it_)]:
                         ok = True
+                if not ok:
+                    # the same with the span named first (`const span covered = span_of(item); return update(covered.start, ..)`):
+                    # the return value read with the header's helpers and small records resolved
+                    try:
+                        env1 = cxx.Env(u1)
+                        env1.functions = getattr(m.env, 'functions', {})
+                        env1.records = getattr(m.env, 'records', None)
+                        rets1 = [r_ for r_ in cxx.body_of(u1).find('ReturnStmt') if r_.kids]
+                        if len(rets1) == 1:
+                            r1 = term(rets1[0].kids[0], env1)
+                            if r1[0] == 'mcall' and r1[1] in (('this',), ('deref', ('this',))) and r1[2] == 'update' and \
+                                    [canon(a) for a in r1[3]] == [canon(M(it_, 'start_of_span')), canon(SUB(M(it_, 'span_length'), LIT(1))), canon(it_)]:
+                                ok = True
+                    except AnalysisError:
+                        pass
         rep.check(ok, R, _w(node.line), 'search:update-args',
                   'the popped item is offered to chart cell (start, span_length-1)',
                   'chart.update is called with (%s)' % ', '.join(canon(a) for a in call[3]))
